@@ -8,7 +8,7 @@ from .semcheck import Case, dbs_ab, FACT_DBS_AB
 x, y, z = V('x'), V('y'), V('z')
 TERMS = [x, y, z, N(1)]
 # families that exist to pin one recorded finding to the property it is recorded under; the metamorphic checks (C07, C11) do not re-use them
-FINDING_FAMILIES = ('RECORD-FIELD-ORDER', 'FUNCTOR-GROUND-EXPLICIT')
+FINDING_FAMILIES = ('RECORD-FIELD-ORDER', 'FUNCTOR-GROUND-EXPLICIT', 'PRECEDENCE')     # (PRECEDENCE programs are raw text with a separate reference rule: not rewritable)
 
 
 def static_ok(rules, pred, schema='AB'):
@@ -384,6 +384,31 @@ def gen_eqforms():
     yield Case('EQFORMS', Program([R('T', x, body=(Lit('B', x), Not(Lit('A', x, y), Cmp('==', l, r))))]), ['T'])
 
 
+def gen_precedence():
+  """expressions written WITHOUT the parentheses the printer normally adds: the program text is raw, the reference rule is the
+  fully parenthesised reading of ordinary arithmetic (same-level operators associate to the left, unary minus binds tightest)"""
+  forms = [
+    ('x - y + 1', Bin('+', Bin('-', x, y), N(1))), ('x + y - 1', Bin('-', Bin('+', x, y), N(1))), ('x - y - 1', Bin('-', Bin('-', x, y), N(1))), ('-x + y', Bin('+', ('un', '-', x), y)),
+    ('-x - y', Bin('-', ('un', '-', x), y)), ('x + y * 2', Bin('+', x, Bin('*', y, N(2)))), ('x * y + 2', Bin('+', Bin('*', x, y), N(2))), ('x - y * 2', Bin('-', x, Bin('*', y, N(2)))),
+    ('-x * y - 1', Bin('-', Bin('*', ('un', '-', x), y), N(1))), ('x + 1 < y * 2', Bin('<', Bin('+', x, N(1)), Bin('*', y, N(2)))), ('x < y && y < 3 && x == 1', Bin('&&', Bin('&&', Bin('<', x, y), Bin('<', y, N(3))), Bin('==', x, N(1)))),
+    ('x == 1 || x == 2 || y == 2', Bin('||', Bin('||', Bin('==', x, N(1)), Bin('==', x, N(2))), Bin('==', y, N(2)))), ('!(x == 1) && y == 2', Bin('&&', ('un', '!', Bin('==', x, N(1))), Bin('==', y, N(2)))),
+    ('x - (y - 1)', Bin('-', x, Bin('-', y, N(1)))), ('-(x + 1)', ('un', '-', Bin('+', x, N(1)))), ('-(x - y)', ('un', '-', Bin('-', x, y))), ('!(x < y || y < 2)', ('un', '!', Bin('||', Bin('<', x, y), Bin('<', y, N(2))))),
+    ('ToString(x) ++ "-" ++ ToString(y)', Bin('++', Bin('++', Call('ToString', x), S('-')), Call('ToString', y))), ('x + y + x - y - x', Bin('-', Bin('-', Bin('+', Bin('+', x, y), x), y), x)),
+  ]
+  for i in range(0, len(forms), 6):
+    chunk = forms[i:i + 6]
+    raw = 'T(%s) :- A(x, y);' % ', '.join(t for t, _ in chunk)
+    ref = R('T', *[e for _, e in chunk], body=(Lit('A', x, y),))
+    c = Case('PRECEDENCE', Program([Ann(raw)]), ['T']); c.prepared = [ref]
+    yield c
+  for t, e in forms[:9]:
+    c = Case('PRECEDENCE', Program([Ann('T(x, y) :- A(x, y), z == %s, z > 0;' % t)]), ['T']); c.prepared = [R('T', x, y, body=(Lit('A', x, y), Eq(z, e), Cmp('>', z, N(0))))]
+    yield c
+  for t, e in forms[9:13]:
+    c = Case('PRECEDENCE', Program([Ann('T(x, y) :- A(x, y), %s;' % t)]), ['T']); c.prepared = [R('T', x, y, body=(Lit('A', x, y), ('cmp', e)))]
+    yield c
+
+
 def gen_reccol():
   Rp = [R('Rp', x, ('rec', (('a', x), ('b', y))), body=(Lit('A', x, y),)), Ann('@NoInject(Rp);')]
   yield Case('EXPR', Program(Rp + [R('T', V('p'), V('q'), body=(Lit('Rp', x, V('r')), Eq(V('p'), ('fld', V('r'), 'a')), Eq(V('q'), ('fld', V('r'), 'b'))))]), ['T', 'Rp'])
@@ -471,7 +496,7 @@ def val_dbs():
 def c01_cases(thorough):
   dbs = dbs_ab(2) + val_dbs()
   dbs3 = dbs_ab(3) if thorough else None      # thorough: all multisets of <=3 rows per table (35 x 10 = 350 databases) for the smaller families
-  gens = [gen_cq(3 if thorough else 2), gen_cons(2 if thorough else 1), gen_disj(thorough), gen_expr(thorough), gen_reccol(), gen_func(thorough), gen_inj(thorough), gen_eqforms()]
+  gens = [gen_cq(3 if thorough else 2), gen_cons(2 if thorough else 1), gen_disj(thorough), gen_expr(thorough), gen_reccol(), gen_func(thorough), gen_inj(thorough), gen_eqforms(), gen_precedence()]
   seen = set()
   for g in gens:
     for c in g:
@@ -532,6 +557,15 @@ def gen_aggh(full):
     yield Case('AGGH', Program([R('T', x, y, body=body, distinct=True)]), ['T'])                            # plain distinct
     yield Case('AGGH', Program([R('T', x, body=body, distinct=True)]), ['T'])
     yield Case('AGGH', Program([R('T', Bin('+', x, y), body=body, distinct=True)]), ['T'])
+  # ArgMax / ArgMin next to other aggregates where the arrow's value is null for every row of some group (rows must not be dropped before grouping)
+  null_groups = [{'A': [(1, None), (2, 5)], 'B': [(1,)]}, {'A': [(1, None), (2, 1), (2, 2)], 'B': []}, {'A': [(3, None)], 'B': [(1,)]}]
+  for op in ('ArgMax', 'ArgMin'):
+    c = Case('AGGH', Program([R('T', x, Aggr(op, arrow(x, y)), Aggr('Count', x), Aggr('Sum', N(1)), body=(Lit('A', x, y),), distinct=True)]), ['T'])
+    c.own_dbs = null_groups
+    yield c
+    c = Case('AGGH', Program([R('T', x, named={'a': Aggr(op, arrow(Bin('+', x, N(1)), y)), 'l': Aggr('List', x)}, body=(Lit('A', x, y),), distinct=True)]), ['T'])
+    c.own_dbs = null_groups
+    yield c
   # multi-body aggregation: all pairs of bodies, one signature
   for b1, b2 in itertools.product(bodies[:6], repeat=2):
     for op in ('Sum', 'Max', 'Count', 'List') if full else ('Sum', 'Max'):
@@ -597,6 +631,15 @@ def gen_agge(full):
     yield Case('AGGE', Program([R('T', x, value=Comb('Max', y, ib), body=(Lit('B', x),))]), ['T'])
   yield Case('AGGE', Program([R('T', x, s_, body=(Lit('B', x), Eq(s_, Comb('Sum', y, (('in', y, ('list', (x, N(1), N(2)))),)))))]), ['T'])
   yield Case('AGGE', Program([R('T', x, s_, body=(Lit('B', x), Eq(s_, Comb('List', y, (('in', y, ('list', (x, N(1)))), Cmp('>', y, N(1)))))))]), ['T'])
+  # an injectible function whose value is an aggregating expression, used twice in one rule, one use feeding the other
+  Fs = R('Fs', x, value=Comb('Sum', y, (Lit('A', x, y),)))
+  Fc = R('Fc', x, value=Comb('Count', y, (Lit('A', y, x),)))
+  yield Case('AGGE', Program([Fs, R('T', x, Call('Fs', Call('Fs', x)), body=(Lit('B', x),))]), ['T'])
+  yield Case('AGGE', Program([Fs, R('T', x, V('a'), V('b'), body=(Lit('B', x), Eq(V('a'), Call('Fs', x)), Eq(V('b'), Call('Fs', V('a')))))]), ['T'])
+  yield Case('AGGE', Program([Fs, Fc, R('T', x, Call('Fs', Call('Fc', x)), Call('Fc', Call('Fs', x)), body=(Lit('B', x),))]), ['T'])
+  yield Case('AGGE', Program([Fc, R('T', x, Bin('+', Call('Fc', x), Call('Fc', Call('Fc', x))), body=(Lit('B', x),))]), ['T'])
+  Jn = R('Jn', x, body=(Lit('B', x), Not(Lit('A', x, y), Cmp('>', y, x))))
+  yield Case('AGGE', Program([Jn, R('T', x, z, body=(Lit('Jn', x), Lit('A', x, z), Lit('Jn', z)))]), ['T'])
   # combine inside an injected predicate: must not capture the caller's variable of the same name
   J = R('J', x, s_, body=(Eq(s_, Comb('Sum', y, (Lit('A', x, y),))),))
   yield Case('AGGE', Program([J, R('T', y, s_, body=(Lit('B', y), Lit('J', y, s_)))]), ['T'])
@@ -849,6 +892,7 @@ def c02_cases(thorough):
       # head must not use the nullable variable as a key
       if null_safe(c) and not any(r.distinct and any(e[0] != 'aggr' and 'y' in lang.evars(e) for _, e in r.args) for r in c.program.rules()):
         c.dbs += NULL_DBS_AB
+      if getattr(c, 'own_dbs', None): c.dbs = list(c.own_dbs); c.fact_dbs = []
       yield c
 
 
